@@ -12,7 +12,8 @@ KINDS = ('bonds', 'angles', 'dihedrals', 'impropers')
 
 FRAGS = [dict(n=1, seed=5, terms=False, coeffs=True, extra=False, cell=None),
          dict(n=2, seed=6, terms=True, coeffs=True, extra=False, cell=None, kinds=['bond']),
-         dict(n=4, seed=7, terms=True, coeffs=True, extra=False, cell=None)]
+         dict(n=4, seed=7, terms=True, coeffs=True, extra=False, cell=None),
+         dict(n=2, seed=8, terms=True, coeffs=True, extra=True, cell=None, kinds=['bond'])]      # brings extra (CIF) columns the seeds lack
 SEEDS = [dict(n=3, seed=0, terms=True, coeffs=True, extra=False, cell='ortho'),
          dict(n=4, seed=1, terms=True, coeffs=True, extra=False, cell='tri'),
          dict(n=2, seed=2, terms=False, coeffs=True, extra=False, cell='ortho'),
@@ -163,13 +164,24 @@ def run_history(seed_spec, ops):
         frag_views = [gen.view(f) for f in frags]
         a = gen.mk(**seed_spec)
         model = strip(gen.view(a))
+        siblings = []
         for step, op in enumerate(ops):
             if op[0] == 'replicate':
                 op = ('replicate', op[1], np.asarray(a.cell, dtype=float))
+            before = a
             try:
                 a = real_apply(a, op, frags)
             except Exception as e:
                 return "step %d %r raised %r" % (step, op[:2], e)
+            if a is not before:
+                # the operation returned a new object: the one it was applied to stays a separate, unchanged, consistent object from now on
+                siblings.append((step, before, gen.view(before)))
+            for s0, sib, sview in siblings:
+                if gen.view(sib) != sview:
+                    return "step %d %r changed the object that step %d had left behind (it is a separate object)" % (step, op[:2], s0)
+                probs = gen.wf_problems(sib)
+                if probs:
+                    return "after step %d %r the object that step %d had left behind is inconsistent: %s" % (step, op[:2], s0, "; ".join(probs))
             model = model_apply(model, op, frag_views)
             msg = same(strip(gen.view(a)), model)
             if msg:
